@@ -34,6 +34,8 @@ def check(ix, rep):
     rep.floor('unit cases of the begin<=end guard', ng, 4)
     nb = P.check_builder_exhaustive(ix, rep, grammars)   # "never silently accepts": an alternative without builder drops its operator
     rep.floor('grammar alternatives with a builder obligation', nb, 70)
+    nsw = P.check_swallow(ix, rep)
+    rep.floor('functions checked for discarded exceptions', nsw, 100)
     ne = P.check_parse_every_path(ix, rep)
     rep.floor('must-pass-through obligations of parse()', ne, 4)
     nt = P.check_termination(ix, rep, [ltl, stl])
